@@ -247,6 +247,20 @@ std::string from_int(regs_t& r, long long v)
     using T = std::remove_reference_t<decltype(reg<K>(r))>;
     return guarded([&] { reg<K>(r) = static_cast<T>(v); });
 }
+// construction from a double (halves, quarters, values next to ties and on both sides of the register ranges)
+inline double flt_table(int vi)
+{
+    static double const t[] = {0.0, 0.5, -0.5, 1.5, -1.5, 2.5, -2.5, 0.25, -0.25, 0.75, -0.75, 31.5, -31.5, 100.3, -100.7, 1000000.5, 0.001, -0.001,
+                               1048576.5, 255.9375, -255.9375, 65535.5, 1e12, -1e12, 3.999, 0.49999999999999994, 8388609.0, -0.03125, 0.046875,
+                               127.5, -128.5, 4294967295.5, 1e-9, -7.0, 12345.678};
+    return t[static_cast<std::size_t>(vi) % (sizeof(t) / sizeof(t[0]))];
+}
+template<int K>
+std::string from_double(regs_t& r, double v)
+{
+    using T = std::remove_reference_t<decltype(reg<K>(r))>;
+    return guarded([&] { reg<K>(r) = static_cast<T>(v); });
+}
 template<int K>
 std::string to_double(regs_t& r, double& d)
 {
@@ -332,6 +346,13 @@ int main(int argc, char** argv)
                 std::string before = raw_of(r, rr);
                 std::string o2 = rr == 1 ? from_int<1>(r, v) : rr == 2 ? from_int<2>(r, v) : rr == 3 ? from_int<3>(r, v) : from_int<4>(r, v);
                 out.put(ev("StFromInt").num("i", id).num("prog", prog).num("k", k).num("d", rr).raw("v", enc(v)).raw("before", before).raw("after", raw_of(r, rr))
+                                .raw("all", "[" + raw_of(r, 1) + "," + raw_of(r, 2) + "," + raw_of(r, 3) + "," + raw_of(r, 4) + "]").str("out", o2).s);
+            } else if (field_s(o, "k") == "fromflt") {
+                int rr = field_i(o, "r");
+                double v = flt_table(field_i(o, "vi"));
+                std::string before = raw_of(r, rr);
+                std::string o2 = rr == 1 ? from_double<1>(r, v) : rr == 2 ? from_double<2>(r, v) : rr == 3 ? from_double<3>(r, v) : from_double<4>(r, v);
+                out.put(ev("StFromFlt").num("i", id).num("prog", prog).num("k", k).num("d", rr).raw("x", enc_float(v)).raw("before", before).raw("after", raw_of(r, rr))
                                 .raw("all", "[" + raw_of(r, 1) + "," + raw_of(r, 2) + "," + raw_of(r, 3) + "," + raw_of(r, 4) + "]").str("out", o2).s);
             } else if (field_s(o, "k") == "neg") {
                 int a = field_i(o, "a"), d = field_i(o, "d");
